@@ -10,12 +10,14 @@ import (
 	"os/exec"
 	"path/filepath"
 	"runtime"
+	"sort"
 	"strconv"
 	"strings"
 	"syscall"
 	"time"
 
 	"rare/pkg/color"
+	"rare/pkg/expressions"
 	"rare/pkg/expressions/stdlib"
 	"rare/pkg/extractor"
 	"rare/pkg/multiterm/termunicode"
@@ -92,6 +94,38 @@ func c08Run(f []string) string {
 			return "bad-op"
 		}
 		return c10Run(f)
+	case "build":
+		// build <name> <n> <elems>: StandardFunctions[name] called directly with n constant arguments "1"
+		if len(f) != 4 {
+			return "bad-op"
+		}
+		n, err := strconv.Atoi(f[2])
+		if err != nil || n < 0 || n > 64 {
+			return "bad-args"
+		}
+		oc, ou, ol := color.Enabled, termunicode.UnicodeEnabled, stdlib.DisableLoad
+		defer func() { color.Enabled, termunicode.UnicodeEnabled, stdlib.DisableLoad = oc, ou, ol }()
+		color.Enabled, termunicode.UnicodeEnabled, stdlib.DisableLoad = false, false, false
+		fn := stdlib.StandardFunctions[string(UnHex(f[1]))]
+		if fn == nil {
+			return "ok missing"
+		}
+		var args []expressions.KeyBuilderStage
+		if n > 0 {
+			one, _ := stdlib.NewStdKeyBuilderEx(true).Compile("1")
+			for i := 0; i < n; i++ {
+				args = append(args, func(ctx expressions.KeyBuilderContext) string { return one.BuildKey(ctx) })
+			}
+		}
+		stage, berr := fn(args)
+		e := "."
+		if berr != nil {
+			e = errKind(berr)
+		}
+		if stage == nil {
+			return "ok stage=0 err=" + e + " val=-"
+		}
+		return "ok stage=1 err=" + e + " val=" + HexS(stage(mkContext(f[3], ".")))
 	}
 	return "bad-op"
 }
@@ -557,6 +591,20 @@ func c08Gen(r *Rand, tier string) []string {
 	out = append(out, wide...)
 	// 3h. deep and long templates (the recursion of Compile, of the formula parser and of the evaluation), NUL and
 	// invalid UTF-8 at every level; 3i. adversarial JSON through the real {json} (gjson is outside the model)
+	// 3j. every builder called directly with 0..5 constant arguments (0 arguments cannot be written as a template)
+	{
+		var names []string
+		for nm := range stdlib.StandardFunctions {
+			names = append(names, nm)
+		}
+		sort.Strings(names)
+		names = append(names, "nofn")
+		for _, nm := range names {
+			for k := 0; k <= 5; k++ {
+				out = append(out, fmt.Sprintf("build %s %d %s", HexS(nm), k, HexListS([]string{"e0", "7"})))
+			}
+		}
+	}
 	out = append(out, c08DeepGen(sub(0x64656570), tier)...)
 	out = append(out, c08JsonGen(sub(0x6a736f6e), tier)...)
 	// 4. the family generators (boundary values per helper)
